@@ -141,7 +141,7 @@ STEP_STATE = {
 def cases(tier, seed):
     from ..xh import gen_contracts as G
     cs = []
-    to = 900 if tier == 'quick' else 3000
+    to = 900 if tier == 'quick' else 1200      # CPU seconds per shard; depth-3 shards that need more are reported as not confirmed
 
     def add(name, spec, want='True', kind='hist'):
         x = XHCase(name, spec[0], spec[1], spec[2], want=want, timeout=to, kind=kind)
